@@ -156,18 +156,66 @@ Proof. intros H. rewrite <- (Z2N.id z) at 1 by exact H. apply tr_space_new_eq. Q
 Definition res_of_space (o : option space) ds : res (Z * bool) :=
   match o with Some sp => Ok (zsp sp) ds | None => Exc end.
 
+(* a literal mask of contiguous ones, as arithmetic *)
+Lemma land_mask_arith x a b m : 0 <= x -> m = Z.shiftl (Z.ones a) b -> 0 <= a -> 0 <= b ->
+  Z.land x m = ((x / 2 ^ b) mod 2 ^ a) * 2 ^ b.
+Proof.
+  intros Hx -> Ha Hb.
+  apply Z.bits_inj'. intros n Hn.
+  rewrite Z.land_spec, Z.shiftl_spec by lia.
+  rewrite <- Z.shiftl_mul_pow2 by lia. rewrite (Z.shiftl_spec (_ mod _)) by lia.
+  destruct (Z.ltb_spec n b) as [L|L].
+  - rewrite !(Z.testbit_neg_r _ (n - b)) by lia. now rewrite andb_false_r.
+  - destruct (Z.ltb_spec (n - b) a) as [L2|L2].
+    + rewrite Z.ones_spec_low by lia. rewrite andb_true_r.
+      rewrite Z.mod_pow2_bits_low by lia. rewrite <- Z.shiftr_div_pow2 by lia. rewrite Z.shiftr_spec by lia. f_equal. lia.
+    + rewrite Z.ones_spec_high by lia. rewrite andb_false_r.
+      rewrite Z.mod_pow2_bits_high by lia. reflexivity.
+Qed.
+Lemma nland_eqb0 a b : (N.land a b =? 0)%N = (Z.land (Z.of_N a) (Z.of_N b) =? 0).
+Proof. rewrite <- of_N_land. symmetry. apply of_N_eqb0. Qed.
+
+Ltac Zify.zify_post_hook ::= Z.to_euclidean_division_equations.
+Ltac pow2_literals :=
+  repeat match goal with
+  | |- context [2 ^ ?k] => let v := eval vm_compute in (2 ^ k) in change (2 ^ k) with v
+  end.
+Ltac land_to_arith :=
+  repeat match goal with
+  | |- context [Z.land ?x ?m] =>
+      first [ rewrite (land_mask_arith x 8 24 m) by first [lia | reflexivity]
+            | rewrite (land_mask_arith x 24 0 m) by first [lia | reflexivity]
+            | rewrite (land_mask_arith x 16 8 m) by first [lia | reflexivity]
+            | rewrite (land_mask_arith x 8 0 m) by first [lia | reflexivity]
+            | rewrite (land_mask_arith x 8 8 m) by first [lia | reflexivity]
+            | rewrite (land_mask_arith x 8 16 m) by first [lia | reflexivity]
+            | rewrite (land_mask_arith x 16 0 m) by first [lia | reflexivity]
+            | rewrite (land_mask_arith x 16 16 m) by first [lia | reflexivity]
+            | rewrite (land_mask_arith x 32 0 m) by first [lia | reflexivity] ]
+  | |- context [py_shiftr ?x ?k] => unfold py_shiftr; rewrite (Z.shiftr_div_pow2 x k) by lia
+  end.
+Ltac split_all := repeat (split_if; try (exfalso; lia)).
+Ltac decide_eqbs :=
+  repeat match goal with
+         | |- context [Z.eqb ?a ?b] => destruct (Z.eqb a b) eqn:?; try (exfalso; lia)
+         end.
+
 Theorem tr_from_id_eq_z (z : Z) ds : tr_IDSpace_from_id z ds = res_of_space (from_id_z z) ds.
 Proof.
   unfold from_id_z. destruct (z <=? 0) eqn:Hz.
-  - unfold tr_IDSpace_from_id. rewrite Hz. reflexivity.
+  - unfold tr_IDSpace_from_id. cbv zeta. split_all; reflexivity.
   - remember (Z.to_N z) as id eqn:Hid. replace z with (Z.of_N id) by lia. clear Hid Hz z.
     unfold tr_IDSpace_from_id, from_id.
-    rewrite !land_of_N_l by lia. rewrite !of_N_eqb0.
-    cbv [fid_max fid_mask3 fid_mask012 fid_mask12 fid_cb24 fid_cb8 fid_cb0 Z.to_N].
-    destruct ((Z.of_N id <=? 0) || (Z.of_N id >? 4294967295)) eqn:C1;
-      destruct ((id <=? 0)%N || (4294967295 <? id)%N) eqn:C2; try lia; [reflexivity|].
-    cbv zeta.
-    repeat split_if; rewrite bind_ret_r, tr_space_new_eq_z by lia; reflexivity.
+    rewrite !nland_eqb0.
+    cbv [fid_max fid_mask3 fid_mask012 fid_mask12 fid_cb24 fid_cb8 fid_cb0].
+    repeat match goal with
+           | |- context [Z.of_N (N.pos ?p)] => change (Z.of_N (N.pos p)) with (Z.pos p)
+           | |- context [Z.of_N 0%N] => change (Z.of_N 0%N) with 0
+           end.
+    land_to_arith. pow2_literals. cbv zeta.
+    split_all; try reflexivity;
+      rewrite ?bind_ret_r, ?tr_space_new_eq_z by lia; cbv [Z.to_N];
+      decide_eqbs; reflexivity.
 Qed.
 
 Theorem tr_from_id_eq (id : N) ds : tr_IDSpace_from_id (Z.of_N id) ds = res_of_space (from_id id) ds.
